@@ -25,7 +25,7 @@ Ctxs == {"expr", "assign", "augassign", "return", "if_test", "while_test", "for_
          "in_if_body", "in_for_body", "in_with_body", "in_try_body", "in_else_body", "in_while_body"}
 Binds == {"none", "assign_before", "assign_after", "assign_same_line", "tuple_before", "for_target", "with_as",
           "annassign_before", "augassign_before", "walrus_before", "except_as", "import_in_fn", "nested_def", "global_decl"}
-Vis == {"conftest", "same_file", "parent_conftest", "sibling_conftest", "imported_by_conftest", "third_party", "not_a_fixture",
+Vis == {"conftest", "same_file", "parent_conftest", "sibling_conftest", "sibling_prefix_conftest", "imported_by_conftest", "third_party", "not_a_fixture",
         "module_level_name", "imported_name", "module_function"}
 Shapes == {"no_params", "one_param", "many_params", "default_param", "annotated_param", "return_annot", "return_annot_params",
            "multiline", "multiline_trailing_comma", "trailing_comma", "method", "async_fn", "decorated", "star_args", "kwargs",
